@@ -34,7 +34,7 @@ static vh_rng_t rng;
 static int quiet;	/* execute without logging (prefix of a full-length exhaustive sequence: judged already as a shorter sequence) */
 static long cur_seq;
 static int cur_target;
-static unsigned long n_ops;
+static unsigned long n_ops, n_near, n_reused;
 
 typedef struct {
 	jwt_value_error_t (*set)(void *, jwt_value_t *);
@@ -133,6 +133,15 @@ static void do_op(const tgt_t *t, const op_t *op)
 		case S: jwt_set_GET_STR(&v, op->name); break;
 		case B: jwt_set_GET_BOOL(&v, op->name); break;
 		default: jwt_set_GET_JSON(&v, op->name); v.pretty = op->pretty; break;
+		}
+		if ((n_ops & 3) == 3) {
+			/* the same struct was used a moment ago to ask for a member that is not there, and was refused: the application now points it
+			 * at the member it wants without running the set-up macro again.  The refusal's code must not outlive the next call */
+			const char *want = v.name;
+			v.name = "\x01no such member";
+			(void)t->get(t->obj, &v);
+			v.name = want;
+			n_reused++;
 		}
 		rc = t->get(t->obj, &v);
 		printf("null,0,%d,%d,", (int)rc, (int)v.error);
@@ -337,10 +346,28 @@ int main(int argc, char **argv)
 			vh_rng_seed(&rng, a.seed, 2000000 + (uint64_t)s);
 			n = 2 + (int)vh_below(&rng, 39);
 			for (int i = 0; i < n; i++) random_op(&rnd_ops[i]);
+			if (n >= 4 && vh_below(&rng, 5) == 0) {
+				/* a member that holds a number, then a set-with-replace of an integer that is a near miss of it: equal as a double but
+				 * not as a JSON value (1.0 / 1, -0.0 / 0), or a neighbour beyond 2^53 that rounds to the same double.  Replace
+				 * overwrites, whatever was there: the typed read that follows gives the new integer */
+				static const struct { const char *js, *name; long v; } NEAR[] = {
+					{ "{\"a\":1.0}", "a", 1 }, { "{\"a\":3.0,\"b\":3}", "a", 3 }, { "{\"b\":-0.0}", "b", 0 },
+					{ "{\"a\":9223372036854775807}", "a", INT64_MAX - 1 }, { "{\"b\":9007199254740993}", "b", 9007199254740992L },
+					{ "{\"a\":1e2}", "a", 100 }, { "{\"c\":2147483648.0}", "c", 2147483648L }, { "{\"exp\":1700000000.0}", "exp", 1700000000L },
+					{ "{\"a\":-9223372036854775808}", "a", INT64_MIN + 1 }, { "{\"a\":9007199254740992}", "a", 9007199254740993L },
+					{ "{\"b\":true}", "b", 1 }, { "{\"a\":\"7\"}", "a", 7 } };
+				int e = (int)vh_below(&rng, sizeof(NEAR) / sizeof(NEAR[0]));
+				int p = (int)vh_below(&rng, (uint64_t)n - 2), q = p + 1 + (int)vh_below(&rng, (uint64_t)(n - p - 2));
+				memset(&rnd_ops[p], 0, sizeof(op_t)); memset(&rnd_ops[q], 0, sizeof(op_t)); memset(&rnd_ops[q + 1], 0, sizeof(op_t));
+				rnd_ops[p].kind = 'S'; rnd_ops[p].type = J; rnd_ops[p].name = NULL; rnd_ops[p].sval = NEAR[e].js; rnd_ops[p].replace = 1;
+				rnd_ops[q].kind = 'S'; rnd_ops[q].type = I; rnd_ops[q].name = NEAR[e].name; rnd_ops[q].ival = NEAR[e].v; rnd_ops[q].replace = 1;
+				rnd_ops[q + 1].kind = 'G'; rnd_ops[q + 1].type = (int)vh_below(&rng, 2) ? I : J; rnd_ops[q + 1].name = NEAR[e].name;
+				n_near++;
+			}
 			vh_case_begin(s, "\"mode\":\"rand\",\"len\":%d", n);
 			run_seq(s, (int)vh_below(&rng, 6), rnd_ops, n);
 		}
 	}
-	printf("[\"STATS\",%lu]\n", n_ops);
+	printf("[\"STATS\",%lu,%lu,%lu]\n", n_ops, n_near, n_reused);
 	return 0;
 }
